@@ -34,7 +34,7 @@ C09OK(e) ==
                  \* after the common tail what remains of the past must be below 1e-9 of the scale of the TAIL
                  tmag == IF "tailabs" \in DOMAIN e THEN QMax(QOne, QFrac(e.tailabs, e.unit)) ELSE mag
              IN
-             \/ (Tally("pairs") /\ OIsSome(a) /\ OIsSome(b) /\ QClose(OQ(a), OQ(b), QMul(QPow10Neg(9), QMul(Gain, tmag))))
+             \/ (Tally("pairs") /\ OIsSome(a) /\ OIsSome(b) /\ QClose(OQ(a), OQ(b), QMul(QPow10Neg(9), tmag)))
              \/ (OIsNone(a) /\ OIsNone(b))
              \/ Report("early-values-do-not-fade")
 
